@@ -25,8 +25,9 @@ pub fn parse_query(query: &str) -> Result<Query, QueryError> {
         )));
     }
 
-    let query = match ast.pop().unwrap() {
-        Statement::Query(query) => query,
+    let query = match ast.pop() {
+        Some(Statement::Query(query)) => query,
+        None => return Err(QueryError::ParseError("Empty query.".to_string())),
         _ => {
             return Err(QueryError::ParseError(
                 "Only SELECT queries are supported.".to_string(),
